@@ -48,7 +48,7 @@ var anchorShapes = map[string]anchorShape{
 	"gtfs:parseShapes":                                {"(*csv.File)→([]gtfs.Shape)", "shape_pt_lat"},
 	"gtfs:parseDirectionID_GTFSStatic":                {"(string)→(gtfs.DirectionID)", ""},
 	"gtfs:parseDirectionID_GTFSRealtime":              {"(*uint32)→(gtfs.DirectionID)", ""},
-	"gtfs:parseCalendar":                              {"(*csv.File,map[string]gtfs.Service)→()", "monday"},
+	"gtfs:parseCalendar":                              {"(*csv.File,map[string]gtfs.Service)→()", "start_date"},
 	"gtfs:parseCalendarDates":                         {"(*csv.File,map[string]gtfs.Service)→()", "exception_type"},
 	"gtfs:parseTime":                                  {"(string)→(time.Time,error)", ""},
 	"gtfs:tripIDUniquelyIdentifiesTrip":               {"(*gtfs.TripID)→(bool)", ""},
@@ -58,7 +58,7 @@ var anchorShapes = map[string]anchorShape{
 	"gtfs:parseOptionalTripDescriptor":                {"(*proto.TripDescriptor)→(*gtfs.TripID)", ""},
 	"gtfs:convertVehiclePosition":                     {"(*proto.VehiclePosition)→(*gtfs.Position)", ""},
 	"gtfs:parseVehicleDescriptor":                     {"(*proto.VehicleDescriptor)→(*gtfs.VehicleID)", ""},
-	"journal:createPartition":                         {"([]journal.StopTime,[]gtfs.StopTimeUpdate)→(journal.partition)", ""},
+	"journal:createPartition":                         {"([]journal.StopTime,[]gtfs.StopTimeUpdate)→(journal._)", ""},
 	"journal:buildTripUID":                            {"(time.Time,string)→(string)", ""},
 	"journal:(*Trip).update":                          {"(*journal.Trip,*gtfs.Trip,time.Time)→()", ""},
 	"journal:(*Trip).markPast":                        {"(*journal.Trip,time.Time)→()", ""},
@@ -66,10 +66,10 @@ var anchorShapes = map[string]anchorShape{
 	"journal:(*StopTime).markPast":                    {"(*journal.StopTime,time.Time)→()", ""},
 	"nycttrips:isStaleUnassignedTrip":                 {"(bool,[]*proto.TripUpdate_StopTimeUpdate,uint64)→(bool)", ""},
 	"nycttrips:fixMTrainPlatformsInBushwick":          {"(*proto.TripUpdate)→()", ""},
-	"nycttrips:(extension).updateTripOrVehicle":       {"(nycttrips.extension,nycttrips.tripOrVehicle)→(bool)", ""},
+	"nycttrips:(extension).updateTripOrVehicle":       {"(nycttrips._,nycttrips._)→(bool)", ""},
 	"nyctalerts:getPriorityFromInformedEntity":        {"(*proto.EntitySelector)→(proto.MercuryEntitySelector_Priority,bool)", ""},
 	"nyctalerts:buildMetadata":                        {"(*proto.Alert)→(string,bool)", ""},
-	"nyctalerts:(extension).updateElevatorAlert":      {"(nyctalerts.extension,*string,*proto.Alert)→(bool)", ""},
+	"nyctalerts:(extension).updateElevatorAlert":      {"(nyctalerts._,*string,*proto.Alert)→(bool)", ""},
 }
 
 // resolveByShape: the unique unexported, named function of the anchor's package with the anchor's shape.
@@ -159,8 +159,42 @@ func (c *Ctx) funcMapClosures() []*ssa.Function {
 		return nil
 	}
 	init := sp.Func("init")
+	if init == nil {
+		return nil
+	}
+	// every function value put into a text/template FuncMap by the package initialiser: function literals and named
+	// functions alike
+	seen := map[*ssa.Function]bool{}
 	var out []*ssa.Function
-	if init != nil {
+	add := func(v ssa.Value) {
+		for i := 0; i < 4 && v != nil; i++ {
+			switch x := v.(type) {
+			case *ssa.MakeInterface:
+				v = x.X
+				continue
+			case *ssa.MakeClosure:
+				v = x.Fn
+				continue
+			case *ssa.ChangeType:
+				v = x.X
+				continue
+			case *ssa.Function:
+				if !seen[x] && len(x.Blocks) > 0 {
+					seen[x] = true
+					out = append(out, x)
+				}
+			}
+			return
+		}
+	}
+	for _, b := range init.Blocks {
+		for _, in := range b.Instrs {
+			if mu, ok := in.(*ssa.MapUpdate); ok && strings.HasSuffix(mu.Map.Type().String(), "template.FuncMap") {
+				add(mu.Value)
+			}
+		}
+	}
+	if len(out) == 0 {
 		out = append(out, init.AnonFuncs...)
 	}
 	return out
